@@ -860,7 +860,13 @@ var blockRules = map[BlockKind]blockRule{
 					// A list item can begin with at most one blank line.
 					return false
 				}
-				p.ConsumeIndent(p.Indent())
+				// Only the item's own indentation belongs to the container:
+				// the rest of a whitespace-only line is content of a code block inside the item.
+				if indent := p.Indent(); indent < p.ContainerIndent() {
+					p.ConsumeIndent(indent)
+				} else {
+					p.ConsumeIndent(p.ContainerIndent())
+				}
 				return true
 			case p.Indent() >= p.ContainerIndent():
 				p.ConsumeIndent(p.ContainerIndent())
